@@ -89,6 +89,21 @@ theorem usableIds_iff (w : World) (hv : HostView) (n : Nat) :
   · rintro ⟨nd, hm, rfl, h1, h2, h3⟩
     exact ⟨nd, ⟨hm, ⟨h1, h2⟩, h3⟩, rfl⟩
 
+/-- a measurement does not change which nodes a daemon may work on -/
+theorem usableIds_measure (w : World) (hv : HostView) (n : Nat) (a : Option Int) :
+    (w.wstep (.measure n a)).1.usableIds hv = w.usableIds hv := by
+  unfold usableIds
+  rw [wstep_measure_nodes, List.filter_map, List.map_map]
+  have hf : w.nodes.filter (usable hv ∘ measRow n a) = w.nodes.filter (usable hv) := by
+    apply List.filter_congr
+    intro x _
+    have := measRow_frame n a x
+    simp only [Function.comp, usable, this.1, this.2.2.1, this.2.2.2.1]
+  rw [hf]
+  apply List.map_congr_left
+  intro x _
+  exact (measRow_frame n a x).1
+
 /-! ### C07.b storage -/
 
 namespace World
@@ -442,6 +457,7 @@ theorem IdsWF_wstep {w : World} (op : WOp) (h : w.IdsWF) : (w.wstep op).1.IdsWF 
     · exact h
     · exact IdsWF_append _ _ _ _ _ h
   | fault n f c => exact IdsWF_setDisk _ _ _ h
+  | measure n a => exact IdsWF_of_copies_eq (w := w) rfl rfl h
 
 /-! request ids -/
 
@@ -585,6 +601,7 @@ theorem RIdsWF_wstep {w : World} (op : WOp) (h : w.RIdsWF) : (w.wstep op).1.RIds
     · exact h
     · exact RIdsWF_of_reqs_eq (w := w) rfl (Nat.le_succ _) h
   | fault n f c => exact RIdsWF_setDisk _ _ _ h
+  | measure n a => exact RIdsWF_of_reqs_eq (w := w) rfl (Nat.le_refl _) h
 
 theorem WellFormed_wstep {w : World} (op : WOp) (hop : OpWF w op) (h : w.WellFormed) :
     (w.wstep op).1.WellFormed :=
@@ -965,6 +982,7 @@ theorem Agree_wstep (w : World) (tr : Tracked) (op : WOp) (hwf : w.WellFormed) (
   | opCancelReq id => exact h
   | opAddCopy f n hh wn => exact Agree_opAddCopy w tr f n hh wn h
   | fault n f c => exact Agree_fault w tr n f c h
+  | measure n a => exact h
 
 end World
 
@@ -1100,6 +1118,7 @@ theorem wstep_rows_persist (w : World) (op : WOp) (x : WCopy) (hx : x ∈ w.copi
     · exact keep
     · exact ⟨x, List.mem_append_left _ hx, rfl⟩
   | fault n f c => exact keep
+  | measure n a => exact keep
 
 end World
 
